@@ -68,6 +68,8 @@ Init ==
   \/ \E k1 \in 1..NK : row = [k |-> "o0", k1 |-> k1, done |-> FALSE]
   \/ \E sc \in 1..2, m1 \in 0..9 : row = [k |-> "h0", sc |-> sc, m1 |-> m1, done |-> FALSE]
   \/ \E a \in 1..Det!NK : row = [k |-> "d0", a |-> a, done |-> FALSE]
+  \/ \E a \in 1..Opt!NJ : row = [k |-> "j0", a |-> a, done |-> FALSE]
+  \/ \E o1 \in 1..Flow!NTail : row = [k |-> "t0", o1 |-> o1, done |-> FALSE]
 
 Next ==
   /\ ~row.done
@@ -102,6 +104,13 @@ Next ==
            \/ \E b \in 1..Det!NK, c \in 1..Det!NK :
                 /\ (Tier = "thorough" \/ (row.a + 2 * b + 3 * c + Seed - 1) % 5 = 0)
                 /\ row' = MkRow("det", Det!Observe(Det!HashLit(<<row.a, b, c>>)), Twice)
+     \/ /\ row.k = "j0"
+        /\ \E b \in 1..Opt!NJ :
+             /\ (Tier = "thorough" \/ (row.a + b + Seed - 1) % 5 = 0)
+             /\ row' = MkRow("join", Opt!JoinProg(Opt!JoinLits[row.a], Opt!JoinLits[b]), <<<<<<"C1", B(TRUE)>>>>, <<<<"C1", B(FALSE)>>>>>>)
+     \/ /\ row.k = "t0"
+        /\ \E o2 \in 1..Flow!NTail, leaf \in BOOLEAN :
+             row' = MkRow("tail", Flow!TailProg(row.o1, o2, leaf), Flow!Objs(Flow!TailFields(row.o1, 1) \o Flow!TailFields(o2, 2)))
      \/ /\ row.k = "o0"
         /\ \E m1 \in 0..Opt!NC, k2 \in 1..NK, m2 \in 0..Opt!NC, sh \in {"nest2", "seq2", "first"} :
              /\ (m1 > 0 => Opt!UsesC(row.k1)) /\ (m2 > 0 => Opt!UsesC(k2)) /\ (m1 > 0 \/ m2 > 0)
